@@ -3,33 +3,61 @@
 package main
 
 import (
-	"context"
+	"errors"
 	"fmt"
+	"io"
 	"net"
+	"strconv"
 	"strings"
 	"sync"
 	"time"
 
+	coreerrors "tunnox-core/internal/core/errors"
+	"tunnox-core/internal/packet"
 	"tunnox-core/internal/protocol/session"
+	"tunnox-core/internal/protocol/session/crossnode"
 )
 
 // Cross-node endpoints.  The case strings name node addresses symbolically: "@0".."@3" are four TCP
 // listeners of this process (shared by all cases; every one accepts, like the cross-node port of a
 // live node), any other string is registered verbatim.  rega substitutes the real listener address,
 // geta / fwd translate it back, so the model only ever sees the symbolic names.
+//
+// An endpoint reads the first frame of every accepted connection (the TargetReady message of the
+// forwarding node), files it under the dialling side's address and keeps the connection open until
+// the case has read the record — so the forwarding node's per-tunnel connection is still there to
+// be identified.
+type arrival struct {
+	ep       int
+	tunnelID string
+	fromNode string
+	frameErr string
+	conn     net.Conn
+}
+
 var (
-	epOnce  sync.Once
-	epAddrs []string // index k -> "127.0.0.1:port"
+	epOnce   sync.Once
+	epAddrs  []string // index k -> "127.0.0.1:port"
+	arrMu    sync.Mutex
+	arrivals = map[string]*arrival{} // dialler's local address -> what the endpoint received
 )
 
 func endpoints() []string {
 	epOnce.Do(func() {
 		for k := 0; k < 4; k++ {
-			ln, err := net.Listen("tcp", "127.0.0.1:0")
+			var ln net.Listener
+			var err error
+			for try := 0; try < 50; try++ { // a busy machine may be short of ports for a moment
+				if ln, err = net.Listen("tcp", "127.0.0.1:0"); err == nil {
+					break
+				}
+				time.Sleep(200 * time.Millisecond)
+			}
 			if err != nil {
 				panic(err)
 			}
 			epAddrs = append(epAddrs, ln.Addr().String())
+			k := k
 			go func() {
 				for {
 					c, err := ln.Accept()
@@ -37,14 +65,65 @@ func endpoints() []string {
 						time.Sleep(time.Millisecond) // transient (aborted handshake …): keep accepting
 						continue
 					}
-					// the endpoint closes first: the TIME_WAIT socket stays on the listener's side and no
-					// ephemeral port of the dialling side is held
-					c.Close()
+					go func() {
+						a := &arrival{ep: k, conn: c}
+						c.SetReadDeadline(time.Now().Add(2 * time.Second))
+						_, ty, data, err := crossnode.ReadFrameFromReader(c)
+						switch {
+						case err != nil:
+							a.frameErr = "noframe"
+						case ty != crossnode.FrameTypeTargetReady:
+							a.frameErr = "frametype" + strconv.Itoa(int(ty))
+						default:
+							t, nid, derr := crossnode.DecodeTargetReadyMessage(data)
+							if derr != nil {
+								a.frameErr = "baddata"
+							}
+							a.tunnelID, a.fromNode = t, nid
+						}
+						arrMu.Lock()
+						arrivals[c.RemoteAddr().String()] = a
+						arrMu.Unlock()
+						// released (closed) by the case; a case that never asks leaves it to this timer
+						time.AfterFunc(5*time.Second, func() {
+							arrMu.Lock()
+							mine := arrivals[c.RemoteAddr().String()] == a // the port may have been reused by a later connection
+							arrMu.Unlock()
+							if mine {
+								dropArrival(c.RemoteAddr().String())
+							} else {
+								c.Close()
+							}
+						})
+					}()
 				}
 			}()
 		}
 	})
 	return epAddrs
+}
+
+func dropArrival(key string) {
+	arrMu.Lock()
+	a := arrivals[key]
+	delete(arrivals, key)
+	arrMu.Unlock()
+	if a != nil {
+		a.conn.Close() // the endpoint closes first: no ephemeral port of the dialling side stays in TIME_WAIT
+	}
+}
+
+func takeArrival(key string, wait time.Duration) *arrival {
+	deadline := time.Now().Add(wait)
+	for {
+		arrMu.Lock()
+		a := arrivals[key]
+		arrMu.Unlock()
+		if a != nil || time.Now().After(deadline) {
+			return a
+		}
+		time.Sleep(200 * time.Microsecond)
+	}
 }
 
 func realAddr(sym string) string {
@@ -64,7 +143,7 @@ func symAddr(real string) string {
 }
 
 // mgr: the TunnelConnectionManager of node n, wired as in components_session.go
-// (getNodeAddr = the node's RoutingTable.GetNodeAddress).  One manager per node for the whole case.
+// (getNodeAddr = the node's RoutingTable.GetNodeAddress) and installed in the node's SessionManager.
 func (e *env) mgr(n int) *session.TunnelConnectionManager {
 	for len(e.mgrs) <= n {
 		e.mgrs = append(e.mgrs, nil)
@@ -72,32 +151,117 @@ func (e *env) mgr(n int) *session.TunnelConnectionManager {
 	if e.mgrs[n] == nil {
 		e.mgrs[n] = session.NewTunnelConnectionManager(e.tables[n].GetNodeAddress,
 			session.TunnelConnectionManagerConfig{DialTimeout: 2 * time.Second, IdleTimeout: 5 * time.Minute})
+		e.sm(n).SetTunnelConnectionManager(e.mgrs[n])
 	}
 	return e.mgrs[n]
 }
 
-// forward: a target connection for tid arrives on node n — resolve the tunnel, open the dedicated
-// connection to its source node, report where it was actually connected to, end the tunnel.
+// sinkConn: the target client's connection — swallows what the server writes to it (the
+// TunnelOpenAck), delivers nothing, reports EOF once closed.
+type sinkConn struct {
+	once     sync.Once
+	done     chan struct{}
+	readOnce sync.Once
+	reading  chan struct{} // closed at the first Read: somebody has started to forward from this connection
+}
+
+func newSink() *sinkConn { return &sinkConn{done: make(chan struct{}), reading: make(chan struct{})} }
+func (s *sinkConn) Read(p []byte) (int, error) {
+	s.readOnce.Do(func() { close(s.reading) })
+	<-s.done
+	return 0, io.EOF
+}
+func (s *sinkConn) Write(p []byte) (int, error)    { return len(p), nil }
+func (s *sinkConn) Close() error                   { s.once.Do(func() { close(s.done) }); return nil }
+func (s *sinkConn) LocalAddr() net.Addr            { return sinkAddr("sink-local") }
+func (s *sinkConn) RemoteAddr() net.Addr           { return sinkAddr("203.0.113.7:4242") }
+func (s *sinkConn) SetDeadline(time.Time) error      { return nil }
+func (s *sinkConn) SetReadDeadline(time.Time) error  { return nil }
+func (s *sinkConn) SetWriteDeadline(time.Time) error { return nil }
+
+type sinkAddr string
+
+func (a sinkAddr) Network() string { return "verif" }
+func (a sinkAddr) String() string  { return string(a) }
+
+// forward: a target connection for tid arrives on node n.  As handleTunnelOpen does, the routing
+// table is asked first; on success the REAL cross-node handler of the node's SessionManager runs
+// (polling lookup → processCrossNodeForward → handleLocalBridgeWait | forwardToSourceNode →
+// CreateDedicatedConnection → TargetReady frame).  Reported: which endpoint received the frame.
 func (e *env) forward(n int, tid string) string {
 	st, err := e.tables[n].LookupWaitingTunnel(e.ctx, tid)
 	if err != nil {
 		return errTok(err)
 	}
-	ctx, cancel := context.WithTimeout(e.ctx, 3*time.Second)
-	defer cancel()
+	sm := e.sm(n)
 	m := e.mgr(n)
-	conn, err := m.CreateDedicatedConnection(ctx, tid, st.SourceNodeID, "verif-client", "")
+	local := st.SourceNodeID == "node-"+strconv.Itoa(n)
+	if local && !sm.VerifHasBridge(tid) {
+		return "localwait" // the real handler would wait 5 s for the bridge to appear: not run
+	}
+	akey := strconv.Itoa(n) + "/" + tid
+	if local {
+		// one target per bridge: a second target for a bridge that is already served is the business of
+		// handleExistingBridge (C04), not of the cross-node handler — the real attach runs once per bridge
+		if e.attached[akey] {
+			return "local"
+		}
+		if e.attached == nil {
+			e.attached = map[string]bool{}
+		}
+		e.attached[akey] = true
+	}
+	sink := newSink()
+	e.conns = append(e.conns, sink)
+	conn, err := sm.CreateConnection(sink, sink)
 	if err != nil {
-		if strings.Contains(err.Error(), "failed to get node address") {
+		return "err:createconn"
+	}
+	herr := sm.VerifHandleCrossNodeTarget(&packet.TunnelOpenRequest{TunnelID: tid, MappingID: st.MappingID, SecretKey: st.SecretKey}, conn)
+	if local {
+		if herr != nil {
+			return "err:local_" + strings.ReplaceAll(herr.Error(), " ", "_")
+		}
+		// Bridge.Start builds its forwarders without a lock; closing the bridge at that very moment (the next
+		// event may be `end`) is a shutdown race that belongs to C16, not to this property: wait until the
+		// bridge has begun to read from the target
+		select {
+		case <-sink.reading:
+		case <-time.After(time.Second):
+		}
+		return "local"
+	}
+	if coreerrors.GetCode(herr) != coreerrors.CodeTunnelModeSwitch {
+		if herr != nil && strings.Contains(herr.Error(), "failed to get node address") {
 			return "enoaddr"
 		}
-		return "edial:" + strings.ReplaceAll(strings.ReplaceAll(err.Error(), " ", "_"), ":", ".")
+		return "edial:" + strings.ReplaceAll(strings.ReplaceAll(fmt.Sprint(herr), " ", "_"), ":", ".")
 	}
-	to := conn.RemoteAddr().String()
-	// wait for the endpoint's close before closing our side
-	conn.SetReadDeadline(time.Now().Add(300 * time.Millisecond))
-	var b [1]byte
-	conn.Read(b[:])
-	m.CloseTunnel(tid)
-	return "fwd:" + hx(st.SourceNodeID) + ":" + hx(symAddr(to))
+	tc := m.GetConnection(tid)
+	if tc == nil || tc.CrossConn == nil {
+		return "err:no_dedicated_connection"
+	}
+	key := tc.CrossConn.LocalAddr().String()
+	to := symAddr(tc.CrossConn.RemoteAddr().String())
+	a := takeArrival(key, 2*time.Second)
+	if a == nil {
+		return "err:nothing_arrived_at_" + to
+	}
+	res := "fwd:" + hx(st.SourceNodeID) + ":" + hx(fmt.Sprintf("@%d", a.ep))
+	if a.frameErr != "" || a.tunnelID != tid || a.fromNode != "node-"+strconv.Itoa(n) {
+		res = "err:bad_ready_frame_" + a.frameErr + "_" + hx(a.tunnelID) + "_" + hx(a.fromNode)
+	}
+	// the tunnel ends: the endpoint closes, the forwarding goroutine winds down and drops the per-tunnel connection
+	dropArrival(key)
+	sink.Close()
+	deadline := time.Now().Add(2 * time.Second)
+	for m.GetConnection(tid) != nil && time.Now().Before(deadline) {
+		time.Sleep(200 * time.Microsecond)
+	}
+	if m.GetConnection(tid) != nil {
+		m.CloseTunnel(tid)
+	}
+	return res
 }
+
+var _ = errors.New
